@@ -133,6 +133,8 @@ def oracle(run, deep):
     mutated_documents(run)
     attribution_is_mapped_access(run)
     keyword_lambda_equivalence(run)
+    composite_host_contexts(run)
+    variable_dispatch_histories(run)
     g = ec.Gen(run.rng, tick_p=0.0, hist={})
     n = run.n(300, 4000) * (3 if deep else 1)
     for _ in range(n):
@@ -256,6 +258,132 @@ def attribution_is_mapped_access(run):
                         return
 
 
+COMPOSITE_PROGRAMS = [
+    "[$a, $b, $c, $limit]", "$.where($ < $limit).toList()", "$.select([$, $a]).toList()", "let(a => 1) -> [$a, $b]",
+    "let(b => $a) -> [$a, $b, $c]", "def(f, $a) -> [f(), let(a => 9) -> f()]", "$.select(let(c => $) -> [$a, $c]).toList()",
+    "[$nosuch, $a = null, $b = null]", "with($a, $b) -> [$1, $2, $a]", "$.where($ > $a and $ < $limit).len()",
+    "[$, $1].len() + coalesce($limit, 0)", "[1, 2].select($ + coalesce($c, 100)).toList()",
+]
+
+
+def _chain(root, layers):
+    """plain contexts, outermost first; returns the leaf"""
+    from yaql.language import contexts
+    c = root
+    for layer in layers:
+        c = contexts.Context(c) if c is not None else contexts.Context()
+        for k, v in layer.items():
+            c[k] = v
+    return c
+
+
+def composite_host_contexts(run):
+    """The host may hand evaluate() a MultiContext or a LinkedContext: names resolve layer by layer exactly as in the
+    equivalent chain of plain contexts (per layer the members in order; a linked chain sits on top of its parent chain) -
+    an inner layer's binding shadows every outer one whichever member holds it."""
+    import yaql
+    from yaql.language import contexts
+    rng = run.rng
+    eng = ec.engine()
+    names = ["a", "b", "c", "limit"]
+    for _ in range(run.n(60, 600)):
+        n = rng.randrange(1, 4)
+        mk = lambda: {k: rng.choice([None, 0, 1, 3, 10, [7]]) for k in names if rng.random() < 0.45}
+        A, B = [mk() for _ in range(n)], [mk() for _ in range(n)]
+        std = yaql.create_context()
+        kind = rng.choice(["multi", "multi_children", "linked", "linked_multi"])
+        if kind in ("multi", "multi_children"):
+            a_leaf, b_leaf = _chain(std, A), _chain(None, B)
+            host = contexts.MultiContext([a_leaf, b_leaf])
+            flat_layers = [dict(b, **a) for a, b in zip(A, B)]           # the first member answers first
+            if kind == "multi_children":
+                host = host.create_child_context()
+                flat_layers.append({})
+            flat = _chain(std, flat_layers)
+        elif kind == "linked":
+            p_leaf, l_leaf = _chain(std, A), _chain(None, B)
+            host = contexts.LinkedContext(p_leaf, l_leaf)
+            flat = _chain(std, A + B)
+        else:
+            p_leaf = _chain(std, A)
+            l1, l2 = _chain(None, B), _chain(None, [mk() for _ in range(n)])
+            host = contexts.LinkedContext(p_leaf, contexts.MultiContext([l1, l2]))
+            # the linked multi-context contributes its merged layers, innermost last
+            B2 = []
+            c1, c2 = l1, l2
+            while c1 is not None:
+                B2.insert(0, dict({k.lstrip("$"): c2[k] for k in c2.keys()}, **{k.lstrip("$"): c1[k] for k in c1.keys()}))
+                c1, c2 = c1.parent, c2.parent
+            flat = _chain(std, A + B2)
+        for text in COMPOSITE_PROGRAMS:
+            data = [1, 2, 3, 4, 5]
+            a, b = _outcome(eng, text, data, host.create_child_context()), _outcome(eng, text, data, flat.create_child_context())
+            run.case(("composite", kind, text, repr(A), repr(B)), nontrivial=n >= 2)
+            run.count("composite_host:" + kind)
+            if a != b:
+                run.fail("violation", "on a composite host context (%s) a name does not resolve to the nearest layer that defines "
+                                      "it (differs from the equivalent chain of plain contexts)" % kind,
+                         {"host_shape": kind, "program": text, "variant": text, "data": data, "layers_first": A, "layers_second": B,
+                          "observed": repr(a), "original": repr(b)})
+                return
+
+
+VARIABLE_PROGRAMS = ["[$x, $bonus, $missing]", "$bonus", "let(x => 1) -> [$x, $bonus]", "[1, 2].select($ + coalesce($bonus, 0)).toList()",
+                     "def(f, $bonus) -> [f(), f()]", "$.select([$, $bonus]).toList()", "[$, $1, $x]", "coalesce($missing, 5)"]
+
+
+def variable_dispatch_histories(run):
+    """`$name` is the call #get_context_data('$name') dispatched through the context of EACH evaluation (the language
+    reference: the host may override it - external look-ups, errors for missing variables): one parsed statement
+    evaluated in contexts that override it differently gives, every time, what a freshly parsed statement gives there."""
+    import yaql
+    from yaql.language import specs, utils, yaqltypes
+    external = {"$bonus": 100, "$x": "ext"}
+
+    class MissingVariable(Exception):
+        pass
+
+    @specs.parameter("name", yaqltypes.StringConstant())
+    @specs.name("#get_context_data")
+    def lenient(name, context):
+        v = context.get_data(name, utils.NO_VALUE)
+        return external.get(name) if v is utils.NO_VALUE else v
+
+    @specs.parameter("name", yaqltypes.StringConstant())
+    @specs.name("#get_context_data")
+    def strict(name, context):
+        v = context.get_data(name, utils.NO_VALUE)
+        if v is utils.NO_VALUE:
+            raise MissingVariable(name)
+        return v
+    root = yaql.create_context()
+    ctxs = {"plain": root.create_child_context(), "external": root.create_child_context(), "strict": root.create_child_context()}
+    ctxs["external"].register_function(lenient)
+    ctxs["strict"].register_function(strict)
+    ctxs["external-child"] = ctxs["external"].create_child_context()
+    rng = run.rng
+    eng = ec.engine()
+    for text in VARIABLE_PROGRAMS:
+        for _ in range(run.n(4, 30)):
+            stmt = eng(text)
+            hist = [rng.choice(sorted(ctxs)) for _ in range(rng.randrange(2, 6))]
+            for step, name in enumerate(hist):
+                def ev(st):
+                    try:
+                        return ("ok", repr(st.evaluate(data=[1, 2], context=ctxs[name].create_child_context())))
+                    except Exception as e:
+                        return ("err", type(e).__name__)
+                got, want = ev(stmt), ev(eng(text))
+                run.case(("vardispatch", text, tuple(hist[:step + 1])), nontrivial=step > 0 and hist[step] != hist[0])
+                run.count("variable_dispatch_step")
+                if got != want:
+                    run.fail("violation", "a parsed statement reused in another context resolves `$name` through the "
+                                          "#get_context_data of an EARLIER evaluation's context",
+                             {"dispatch_history": hist[:step + 1], "program": text, "variant": text, "data": [1, 2],
+                              "observed": repr(got), "original": repr(want)})
+                    return
+
+
 LAMBDA_BODIES = ["$", "$ * 10", "$ > 1", "[$, $]", "$ + $k", "sq($)", "[$1, $2]", "$1 > $2", "$[0]", "$.len()"]
 RECEIVERS = ["[1, 2, 3]", "[[1, a], [1, b], [2, c]]", "[[3, 4], [1]]", "{a => 1, b => 2}", "[3, 1, 2].select($ + 1)"]
 PLAIN_ARGS = ["1", "[2, 5]", "{b => 3}", "true"]
@@ -343,9 +471,10 @@ class _Probe:
 
 def replay(run, data):
     d = data.get("data", {})
-    if "context" in d or "convention" in d:
+    if "context" in d or "convention" in d or "host_shape" in d or "dispatch_history" in d:
         probe = _Probe(run.rng)
-        (attribution_is_mapped_access if "context" in d else keyword_lambda_equivalence)(probe)
+        (attribution_is_mapped_access if "context" in d else keyword_lambda_equivalence if "convention" in d
+         else composite_host_contexts if "host_shape" in d else variable_dispatch_histories)(probe)
         return not probe.failed
     if "variant" in d:
         return repr(ec.run_real(d["variant"], d["data"])[1]) == repr(ec.run_real(d["program"], d["data"])[1])
